@@ -30,6 +30,11 @@ func c18Bases(seed int64, thorough bool) []*e2eCase {
 	mk(true, false, 4, []int64{3000, 300000}, 1<<20)
 	res[len(res)-1].Opts.Compress = 0
 	mk(true, true, 4, []int64{600000}, 10<<20) // pause inside the buffer-size probing phase
+	// one acknowledgement comes 2.3 s late: the sender halves its buffer size and writes the blocks that
+	// were encoded at the old size in pieces; a pause may begin between two pieces
+	mk(true, false, 4, []int64{900000}, 64<<10)
+	res[len(res)-1].Opts.Timeout = 10
+	res[len(res)-1].Plan.Hold = &e2eHold{Dir: "s2c", K: 9, Ms: 2300}
 	if thorough {
 		mk(false, true, 3, []int64{2000, 200000}, 1<<20)
 		res[len(res)-1].Opts.Compress = 0
@@ -63,6 +68,15 @@ func c18Pause(d *vCtx) error {
 			tmo := bases[bi].Opts.Timeout * 1000
 			delays := []int{tmo / 5, tmo / 2, tmo * 13 / 10, tmo * 5 / 2}
 			for g := range layouts[bi] {
+				if bases[bi].Plan.Hold != nil {
+					// only where pieces are written: data messages of the client after the late acknowledgement
+					m := layouts[bi][g]
+					if m.Dir != "c2s" || m.Typ != "DATA" || m.K < 12 || (g%2 == 1 && !thorough) {
+						continue
+					}
+					jobs = append(jobs, job{bi, e2ePause{G: g, Phase: "after", ResumeMs: 400, Cycles: 1}})
+					continue
+				}
 				for pi, ph := range []string{"before", "after"} {
 					// every message gets the two short delays on alternating phases; long ones are sampled
 					jobs = append(jobs, job{bi, e2ePause{G: g, Phase: ph, ResumeMs: delays[pi], Cycles: 1}})
